@@ -31,7 +31,7 @@ def make_events(seed: int, n_ctx: int, per_ctx: int, *, coerce: bool = False, ex
         datas = [g.gen_data(T) for _ in range(per_ctx)]
         if exotic:
             datas = [plant_exotic(rng, d) if rng.random() < 0.6 else d for d in datas]
-        opts = {"addl": rng.random() < 0.25, "fbd": rng.random() < 0.25, "coerce": coerce and rng.random() < 0.7, "impl": False, "dev": [],
+        opts = {"addl": rng.random() < 0.25, "fbd": rng.random() < 0.25, "coerce": coerce and rng.random() < 0.7, "impl": False, "dev": [], "setuniq": False,
                 "ali": []}
         senv = gen.senv_for(T, g.classes, g.enums, datas)
         ctxs.append({"C": g.classes, "En": g.enums, "O": opts, "S": senv})
